@@ -149,3 +149,55 @@ def check_C11(tier):
                    "substitution compares every new variable with the simultaneous assignment of the AxCut machine and "
                    "HeapInv checks that copies raised and drops released the reference counts exactly")
 lockstep.TAGS["C11"] = {"control", "env", "result", "value", "undef", "heap", "mem", "axcut"}
+
+
+# ---------------------------------------------------------------------------------------------- stage checks
+import stages
+
+
+def check_C02(tier):
+    k = T(tier, 1, 12)
+    plan = [dict(n=180 * k, mode="seq", pressure=True, twins=True, budget=(8, 26), tag="press"),
+            dict(n=80 * k, mode="seq", pressure=False, budget=(8, 30), wide=True, tag="plain")]
+    return stages.stage_check(
+        "C02", tier, [("fun", "core")], ["core"], plan, maxsteps=T(tier, 6000, 20000), capture_twins=True,
+        rule="Fun machine vs Core machine on the real compile_prog output (effects only in sequenced positions); Core output "
+             "walked by spec/CoreTyping.tla; programs with heavy name reuse (let/pattern/label binders, generated-looking "
+             "names) and their alpha-renamed twins whose binders are all distinct and look compiler-generated: a failure "
+             "that the twin does not show is name capture, a failure of a twin is always new.")
+
+
+def check_C03(tier):
+    k = T(tier, 1, 12)
+    plan = [dict(n=200 * k, mode="any", pressure=False, budget=(8, 30), tag="any"),
+            dict(n=80 * k, mode="any", pressure=True, twin=True, budget=(8, 24), tag="anytw")]
+    return stages.stage_check(
+        "C03", tier, [("core", "coreuniq"), ("core", "corefs")], ["coreuniq", "corefs"], plan, own_hyp="core",
+        maxsteps=T(tier, 6000, 20000),
+        rule="Core machine with dynamic focusing on the unfocused translation output vs the same machine on the uniquified and "
+             "on the focused program (effects in every argument position); walker in mode unique: binders distinct along "
+             "every path, ids non-zero and <= max_id, well-typed.")
+
+
+def check_C04(tier):
+    k = T(tier, 1, 12)
+    plan = [dict(n=220 * k, mode="any", pressure=False, budget=(8, 30), wide=True, tag="any"),
+            dict(n=60 * k, mode="seq", pressure=True, twin=True, budget=(8, 24), tag="tw")]
+    return stages.stage_check(
+        "C04", tier, [("corefs", "axcut")], ["axcut"], plan, own_hyp="corefs", maxsteps=T(tier, 6000, 20000),
+        rule="Core machine on the focused program vs AxCut machine (named mode) on the real shrink_prog output; AxCut output "
+             "walked by spec/AxCutTyping.tla (chirality collapse, clause order, lifted definitions called with their free "
+             "variables).")
+
+
+def check_C05(tier):
+    k = T(tier, 1, 12)
+    plan = [dict(n=160 * k, mode="any", pressure=False, budget=(8, 30), wide=True, tag="any")]
+    ax = [("base", 100 * k), ("spill", 40 * k), ("objects", 40 * k)]
+    return stages.stage_check(
+        "C05", tier, [("axcut", "axcutlin")], ["axcutlin"], plan, axcut_plan=ax, own_hyp="axcut", maxsteps=T(tier, 6000, 20000),
+        level="model_checking",
+        rule="(i) all-paths walk of the linearised program (spec/AxCutTyping.tla, mode linear): ContextExact per statement "
+             "kind, KindsAgree, SubstituteWellFormed; (ii) AxCut machine in named mode on the input vs positional mode on the "
+             "real linearize output. Inputs: shrink_prog outputs of generated Fun programs and directly generated non-linear "
+             "AxCut programs.")
